@@ -6,7 +6,8 @@ CFG = {'level': 'exploration',
               'family, read-bound monitor on the HashReader',
  'level_text': 'All (t,n) up to T=100 (quick) / 800 plus trees around 2^10..2^16 (thorough): proofs must be byte-equal to the RFC 6962 construction '
                'and CheckRecord/CheckTree accept/reject must equal the RFC 9162 algorithms on every mutated tuple (proof hashes, length, order, '
-               'index, sizes, leaf, both roots, out-of-range). Held-on-observed.',
+               'index, sizes, leaf, both roots, out-of-range). Held-on-observed.'
+               ' Added after seeded changes: eight goroutines proving and checking at once must reproduce the sequential results, and a log grown through a zero-copy HashReader (tree hash taken after every append) must keep yielding RFC 6962 proofs.',
  'level_note': 'Trusts crypto/sha256 and the literal transcription of RFC 6962 §2.1 / RFC 9162 §2.1.3.2, §2.1.4.2 in ref/refmerkle.',
  'gomaxprocs': 4,
  'nbatch': {'quick': 16, 'thorough': 64},
